@@ -177,7 +177,12 @@ fn wellformed(plan: &RecExpr, catalog: risinglight::catalog::RootCatalogRef) -> 
     for (idx, n) in nodes.iter().enumerate() {
         match n {
             Expr::Apply(_) => issues.push("contains-apply".to_string()),
-            Expr::In(_) => issues.push("contains-in-subquery".to_string()),
+            Expr::In([_, set]) => {
+                // `in` over a value list is evaluated by the executor; over a plan it is a subquery
+                if !matches!(&nodes[usize::from(*set)], Expr::List(_)) {
+                    issues.push("contains-in-subquery".to_string())
+                }
+            }
             Expr::Exists(_) => issues.push("contains-exists".to_string()),
             Expr::Max1Row(_) => issues.push("contains-max1row".to_string()),
             Expr::HashJoin([ty, cond, lk, rk, _, _]) | Expr::MergeJoin([ty, cond, lk, rk, _, _]) => {
@@ -197,12 +202,6 @@ fn wellformed(plan: &RecExpr, catalog: risinglight::catalog::RootCatalogRef) -> 
                 }
                 if is_merge && semi_anti {
                     issues.push("mergejoin-semi-anti".to_string());
-                }
-            }
-            Expr::Join([ty, _, _, _]) => {
-                // the nested-loop executor implements inner / left outer / semi / anti
-                if matches!(&nodes[usize::from(*ty)], Expr::RightOuter | Expr::FullOuter) {
-                    issues.push("nested-loop-right-or-full-outer".to_string());
                 }
             }
             _ => {}
